@@ -15,6 +15,7 @@ import (
 	"os"
 	"sort"
 	"strings"
+	"sync"
 	"time"
 
 	"github.com/negasus/haproxy-spoe-go/action"
@@ -628,6 +629,29 @@ func judge(ds []decl, pr probe, o outcome, pure bool) []finding {
 				detail: fmt.Sprintf("%s %s received the policy of %q although the more specific %q is declared and matches (normalized=%q)", pr.Method, pr.URL, e.name(), d.name(), o.Norm)})
 			break
 		}
+		// A wildcard with zero remaining segments: the statement leaves open whether it matches, but matching is
+		// a relation between one pattern and the URL. If the engine applies d's policy to this URL when d is
+		// declared alone, d matches by the engine's own convention, and a less specific pattern must not win
+		// over it because other patterns are declared too.
+		if len(fs) == 0 {
+			for _, d := range ds {
+				if d.Method != pr.Method || d.pat.Match(pr.URL) != sim.DontCare || !sim.MoreSpecific(d.pat, e.pat, ulen) {
+					continue
+				}
+				if !appliesAlone(d, pr) {
+					continue
+				}
+				k := class(e.pat) + "-over-wildcard-with-zero-segments"
+				if foreign {
+					k = "policy-served-from-foreign-node"
+				} else if divertedBySibling(ds, d, pr.URL) {
+					k = "diverted-by-more-specific-sibling"
+				}
+				fs = append(fs, finding{sig: "C13/not-most-specific/" + k,
+					detail: fmt.Sprintf("%s %s received the policy of %q although the more specific %q is declared and, declared alone, is applied to this URL (normalized=%q)", pr.Method, pr.URL, e.name(), d.name(), o.Norm)})
+				break
+			}
+		}
 	}
 	// normalised URL: a declared pattern (of any method) that matches the request. Not judged again
 	// when the selection itself is already refuted on this probe.
@@ -669,6 +693,28 @@ func judge(ds []decl, pr probe, o outcome, pure bool) []finding {
 			detail: fmt.Sprintf("%s %s: remedy of %q, diagnosis of %q", pr.Method, pr.URL, o.SelName, o.DiagName)})
 	}
 	return fs
+}
+
+var aloneMemo sync.Map
+
+// appliesAlone: the endpoint declared alone is selected for the probe by the real tree.
+func appliesAlone(d decl, pr probe) bool {
+	key := fmt.Sprintf("%s %s %v <- %s", d.Method, d.URL, d.Kind, pr.URL)
+	if x, ok := aloneMemo.Load(key); ok {
+		return x.(bool)
+	}
+	res := false
+	func() {
+		defer func() { _ = recover() }()
+		c := caseT{Eps: []ep{d.ep}}
+		tree, err := config.BuildEndpointPolicyTree(declarations(c, []int{0}))
+		if err != nil || tree == nil {
+			return
+		}
+		res = observe(tree, map[string]int{d.ep.name(): 0}, pr.Method, pr.URL, false).Sel == 0
+	}()
+	aloneMemo.Store(key, res)
+	return res
 }
 
 func declared(ds []decl, norm string) bool {
